@@ -25,19 +25,20 @@ def segIdent : T → Option String
 inductive SegArgs where
   | none
   | angle (args : List T)
-  | paren
+  | paren (arguments : T)        -- the whole `PathArguments::Parenthesized` node (`Fn(A) -> B`): compared and hashed as printed
   | bad
   deriving Repr, DecidableEq
 
 def segArgs : T → SegArgs
   | .node "PathSegment" [] [_, .node "PathArguments::None" [] []] => .none
   | .node "PathSegment" [] [_, .node "PathArguments::AngleBracketed" [] [_, .node "List" [] args]] => .angle args
-  | .node "PathSegment" [] [_, .node "PathArguments::Parenthesized" _ _] => .paren
+  | .node "PathSegment" [] [_, .node "PathArguments::Parenthesized" as ks] => .paren (.node "PathArguments::Parenthesized" as ks)
   | _ => .bad
 
 def nonAssoc (args : List T) : List T := args.filter (fun a => !isAssocType a)
 
-/-- outcome of a comparison that may hit `unreachable!()` -/
+/-- outcome of a comparison; `panic` is kept for trees that are not paths (never produced by `syn`): since /repo 94aac73 the
+    parenthesized form no longer hits `unreachable!()` -/
 inductive B3 where | t | f | panic
   deriving Repr, DecidableEq
 
@@ -57,23 +58,34 @@ def tbEq (p q : T) : B3 :=
             let f1 := nonAssoc a1
             let f2 := nonAssoc a2
             if f1.length != f2.length then .f else B3.ofBool (f1 == f2)
+        -- `(first_args, second_args) => Tokenized(first_args) == Tokenized(second_args)`: at least one side is parenthesized
+        | .paren x, .paren y => B3.ofBool (x == y)
+        | .paren _, .none => .f
+        | .paren _, .angle _ => .f
+        | .none, .paren _ => .f
+        | .angle _, .paren _ => .f
         | _, _ => .panic
   | _, _ => .panic
 
-/-- The dispatch key denoted by a trait path: leading segments, identifier, the non-binding arguments. -/
+/-- The dispatch key denoted by a trait path (SPECIFICATION, not mirrored code): leading segments, identifier, the
+    non-binding arguments of an angle-bracketed list (`[]` for `Tr` and for `Tr(..)`), and — separately, so that a
+    parenthesized list is never confused with an angle-bracketed one — the whole parenthesized argument node of
+    `Fn(A) -> B` (`none` for `Tr` and `Tr<..>`). -/
 structure TraitKey where
   init : List T
   ident : Option String
   args : List T
+  paren : Option T
   deriving Repr, DecidableEq
 
 def keyOf (p : T) : Option TraitKey :=
   match (pathSegments p).reverse with
   | l :: i =>
       match segArgs l with
-      | .none => some ⟨i.reverse, segIdent l, []⟩
-      | .angle args => some ⟨i.reverse, segIdent l, nonAssoc args⟩
-      | _ => none
+      | .none => some ⟨i.reverse, segIdent l, [], none⟩
+      | .angle args => some ⟨i.reverse, segIdent l, nonAssoc args, none⟩
+      | .paren x => some ⟨i.reverse, segIdent l, [], some x⟩
+      | .bad => none
   | [] => none
 
 /-- what `TraitBound::hash` feeds to the hasher (lib.rs:225-244): one entry per printed piece -/
@@ -90,7 +102,8 @@ def hashFeed (p : T) : Option (List Feed) :=
       match segArgs l with
       | .none => some pre
       | .angle args => some (pre ++ (nonAssoc args).map Feed.arg)
-      | _ => none
+      | .paren x => some (pre ++ [Feed.arg x])
+      | .bad => none
   | [] => none
 
 /-- The bound with exactly its associated-type bindings removed (what generated where-clauses and
